@@ -1,10 +1,67 @@
 /-
-C08 — Depth, recursion, call and search limits are exact and transparent.
-Theorems over the core evaluator (XrayModel/Core.lean).
+C08 — Depth, recursion and call limits are exact and transparent (core evaluator,
+XrayModel/Core.lean; the search limit lives in the sequence engines).
 -/
-import XrayProofs.Core
+import XrayProofs.CoreLimits
 namespace XrayModel.C08
-open XrayModel.Core
+open XrayModel.Core XrayModel.CoreLimits
+
+/-! ### 1. no limits: no violation, no counting -/
+
+/-- With no depth, call or recursion limit configured, no function of the evaluator ever ends in a
+violation — whatever the fuel, the frame, the state — and the call counter does not move (it only
+runs when a call limit is configured, `increment_call_limit`). -/
+theorem no_limit_no_violation (cfg : Cfg)
+    (hc : cfg.depthLimit = none ∧ cfg.callLimit = none ∧ cfg.recLimit = none) (fuel : Nat) :
+    (∀ fr e tail st, (∀ k, (eval fuel cfg fr e tail st).1 ≠ .viol k) ∧ (eval fuel cfg fr e tail st).2.calls = st.calls) ∧
+    (∀ fr f args tail st, (∀ k, (callNamed fuel cfg fr f args tail st).1 ≠ .viol k) ∧ (callNamed fuel cfg fr f args tail st).2.calls = st.calls) ∧
+    (∀ fr c args tail st, (∀ k, (callVal fuel cfg fr c args tail st).1 ≠ .viol k) ∧ (callVal fuel cfg fr c args tail st).2.calls = st.calls) ∧
+    (∀ fr es st, (∀ k, (evalList fuel cfg fr es st).1 ≠ .error (.viol k)) ∧ (evalList fuel cfg fr es st).2.calls = st.calls) ∧
+    (∀ fr f st, (∀ k, (mkClos fuel cfg fr f st).1 ≠ .viol k) ∧ (mkClos fuel cfg fr f st).2.calls = st.calls) ∧
+    (∀ fr ps st, (∀ k, (evalDflts fuel cfg fr ps st).1 ≠ .error (.viol k)) ∧ (evalDflts fuel cfg fr ps st).2.calls = st.calls) ∧
+    (∀ h c args st, (∀ k, (callUser fuel cfg h c args st).1 ≠ .viol k) ∧ (callUser fuel cfg h c args st).2.calls = st.calls) ∧
+    (∀ h c args rec st, (∀ k, (tramp fuel cfg h c args rec st).1 ≠ .viol k) ∧ (tramp fuel cfg h c args rec st).2.calls = st.calls) ∧
+    (∀ fr ds st, (∀ k, (evalDecls fuel cfg fr ds st).1 ≠ .error (.viol k)) ∧ (evalDecls fuel cfg fr ds st).2.calls = st.calls) ∧
+    (∀ fr f args tail st, (∀ k, (builtin fuel cfg fr f args tail st).1 ≠ .viol k) ∧ (builtin fuel cfg fr f args tail st).2.calls = st.calls) ∧
+    (∀ ds, (∀ k, (runProgram fuel cfg ds).1 ≠ .error (.viol k)) ∧ (runProgram fuel cfg ds).2.calls = 0) := by
+  have H := noViolAt cfg hc fuel
+  refine ⟨?_, ?_, ?_, ?_, ?_, ?_, ?_, ?_, ?_, ?_, ?_⟩
+  · intro fr e tail st
+    have := H.eval fr e tail st
+    grind [Res.isViol, exViol]
+  · intro fr f args tail st
+    have := H.callNamed fr f args tail st
+    grind [Res.isViol, exViol]
+  · intro fr c args tail st
+    have := H.callVal fr c args tail st
+    grind [Res.isViol, exViol]
+  · intro fr es st
+    have := H.evalList fr es st
+    grind [Res.isViol, exViol]
+  · intro fr f st
+    have := H.mkClos fr f st
+    grind [Res.isViol, exViol]
+  · intro fr ps st
+    have := H.evalDflts fr ps st
+    grind [Res.isViol, exViol]
+  · intro h c args st
+    have := H.callUser h c args st
+    grind [Res.isViol, exViol]
+  · intro h c args rec st
+    have := H.tramp h c args rec st
+    grind [Res.isViol, exViol]
+  · intro fr ds st
+    have := H.evalDecls fr ds st
+    grind [Res.isViol, exViol]
+  · intro fr f args tail st
+    have := H.builtin fr f args tail st
+    grind [Res.isViol, exViol]
+  · intro ds
+    have := H.evalDecls { env := [], self := none, height := 0 } ds {}
+    simp only [runProgram]
+    grind [Res.isViol, exViol]
+
+/-! ### local exactness of the three checks (one step of `callUser` / `tramp`) -/
 
 /-- The call limit is exact: a user call (with error-free arguments) under call limit `l` ends in the
 call violation exactly when the number of user calls, this one included, reaches `l`;
